@@ -278,6 +278,7 @@ func verifyServerExtensions(copts *compressionOptions, h http.Header) (*compress
 
 	_copts := *copts
 	copts = &_copts
+	serverNoContextTakeover := false
 
 	for _, p := range ext.params {
 		switch p {
@@ -285,7 +286,7 @@ func verifyServerExtensions(copts *compressionOptions, h http.Header) (*compress
 			copts.clientNoContextTakeover = true
 			continue
 		case "server_no_context_takeover":
-			copts.serverNoContextTakeover = true
+			serverNoContextTakeover = true
 			continue
 		}
 		if strings.HasPrefix(p, "server_max_window_bits=") {
@@ -295,6 +296,10 @@ func verifyServerExtensions(copts *compressionOptions, h http.Header) (*compress
 
 		return nil, fmt.Errorf("unsupported permessage-deflate parameter: %q", p)
 	}
+
+	// The server only gives up its compression context if its response says so,
+	// whether or not we asked for it.
+	copts.serverNoContextTakeover = serverNoContextTakeover
 
 	return copts, nil
 }
